@@ -1,5 +1,6 @@
 import QtVerif.Proofs.Backup
 import QtVerif.Proofs.BackupTrace
+import QtVerif.Proofs.Peripherals
 /-!
 C20 — backup then restore reproduces the same configuration.
 
@@ -15,10 +16,11 @@ What is covered, and what is NOT:
   (`switches_off_during_restore_and_on_afterwards`). PUT /device, PUT /devices: `restore_device`, `restore_slaves`,
   `restore_slaves_doc`; the switches along the small-step trace of the try/finally of PUT /devices
   (`slaves_switches_off_during_restore_and_on_afterwards`).
-* NOT MODELLED: GET/PUT /peripherals (the fourth part of a backup in the frontend's backup/restore), the limit on
-  the number of virtual ports, sequences, slave ports. "Full strength" below always means: of the PORTS part of the
-  statement, on this model. The missing peripherals clause is named `restoreRoundtripWithPeripheralsFull` at the end
-  of the file; it is stated over an abstract peripherals API and is NOT proved of anything.
+* GET/PUT /peripherals (`Model.Peripherals`): `peripherals_restore_roundtrip`, `peripherals_static_survive`,
+  `peripherals_refused_document_outcome` (what the unrepaired code leaves behind), `peripherals_invariant`.
+* NOT MODELLED: the limit on the number of virtual ports, sequences, slave ports; the creation of a peripheral's ports
+  (only a flag), hence the joint statement `restoreRoundtripWithPeripheralsFull` at the end of the file is proved in its
+  first conjunct only.
 -/
 namespace QtVerif.C20
 open QtVerif.Config QtVerif.Backup
@@ -708,11 +710,112 @@ example :
       (true, true, false, some (demoSlave "s1.local"), true) := by
   decide
 
-/-! ### what is missing: peripherals
+/-! ### peripherals (GET / PUT /peripherals)
 
-The frontend's backup also saves GET /peripherals and restores it with PUT /peripherals (peripheral ports re-created
-from their driver definitions). Neither call is in `Model.Backup`; the harness does not exercise them either. The
-clause a complete C20 would need, over an ABSTRACT peripherals API (nothing below is instantiated or proved): -/
+`Model.Peripherals` mirrors the registry and the four API functions as the code is; `Proofs.Peripherals` has the lemmas.
+Hypotheses of the round trip, all facts of a source hub that is reachable through the API (`peripherals_invariant`
+below) and of "the two hubs run the same static configuration": effective ids distinct, `WFP` (the name, if supplied, is
+the id; ids are non-empty — the auto id starts with `peripheral_`), static peripherals first, every non-static entry of
+the document still constructible (`Addable`: the driver loads and takes the GET form of the entry — with `id` and
+`name: null` filled in). -/
+section Peripherals
+open QtVerif.Peripherals
+
+/-- **GET after PUT(GET source) = GET source**, for every target registry with the same static peripherals and every
+source registry: the document is accepted, the registry afterwards is the source's static part followed by the source's
+non-static peripherals in order, each under its own effective id (named, explicit id or auto id alike) and with its
+ports; so GET /peripherals answers exactly the backup document. -/
+theorem peripherals_restore_roundtrip (cfg : Peripherals.Cfg) (tgt src : List Periph)
+    (hschema : ∀ p ∈ src, cfg.schemaOk (toJson p) = true)
+    (hw : ∀ p ∈ src, WFP p) (ha : ∀ p ∈ src, p.static = false → Addable cfg p)
+    (hnd : (ids src).Nodup) (hsf : StaticsFirst src)
+    (hstat : tgt.filter (·.static) = src.filter (·.static)) :
+    (putPeripherals cfg tgt (getPeripherals src)).2 = .ok ∧
+    getPeripherals (putPeripherals cfg tgt (getPeripherals src)).1 = getPeripherals src ∧
+    ids (putPeripherals cfg tgt (getPeripherals src)).1 = ids src ∧
+    ∀ p ∈ (putPeripherals cfg tgt (getPeripherals src)).1, p.static = false → p.ports = true := by
+  have h := put_get_source cfg tgt src hschema hw ha hnd hsf hstat
+  refine ⟨by rw [h], get_put_get cfg tgt src hschema hw ha hnd hsf hstat, ?_, ?_⟩
+  · rw [h]
+    conv => rhs; rw [hsf]
+    simp [ids, List.map_map, Function.comp_def, ported]
+  · exact put_ok_ports cfg tgt _ _ (by rw [h])
+
+/-- the static peripherals of the target survive every PUT /peripherals untouched — accepted, refused or invalid -/
+theorem peripherals_static_survive (cfg : Peripherals.Cfg) (reg : List Periph) (doc : List Entry) :
+    (putPeripherals cfg reg doc).1.filter (·.static) = reg.filter (·.static) :=
+  put_statics_survive cfg reg doc
+
+/-- what the code does with a document it refuses (the known finding `C20-put-peripherals-failing-entry-unnamed`): the
+`k`-th entry is the first one `add` refuses on the registry built so far; the target's own non-static peripherals are
+gone, the entries before the `k`-th are registered and NONE of them has ports. (That the error names entry `k` is what
+the property asks; the code raises the registry's bare exception — `k` is a fact of the run, not of the response.) -/
+theorem peripherals_refused_document_outcome (cfg : Peripherals.Cfg) (reg reg' : List Periph) (doc : List Entry)
+    (k : Nat) (kind : AddErr) (h : putPeripherals cfg reg doc = (reg', .raised k kind)) :
+    ∃ pre e post added, doc = pre ++ e :: post ∧ k = pre.length ∧ e.static = false ∧
+      addAll cfg (reg.filter (·.static)) 0 [] pre = (added, .ok) ∧
+      add cfg (reg.filter (·.static) ++ added) (popStatic e) false = .error kind ∧
+      reg' = reg.filter (·.static) ++ added ∧ ∀ p ∈ added, p.static = false ∧ p.ports = false :=
+  put_raised cfg reg reg' doc k kind h
+
+/-- a hub for the examples: the auto id sees whether `name` is null or absent (as the hash over all parameters does) -/
+def demoPCfg : Peripherals.Cfg :=
+  { auto := fun e => match e.name with | .null => "peripheral_n" | _ => "peripheral_a",
+    loadable := fun d => d = "Board" ∨ d = "Beacon", ctorOk := fun e => e.params ≠ 13, schemaOk := fun _ => true }
+
+def fixedP : Periph := { effId := "fixed", name := some "fixed", driver := "Beacon", params := 0, static := true, ports := true }
+
+/-- source: POST a named board, a board with an explicit id only, a board with neither -/
+def demoSource : List Periph :=
+  let r := (postPeripheral demoPCfg [fixedP] ⟨.val "boiler", .absent, "Board", 32, false⟩).1
+  let r := (postPeripheral demoPCfg r ⟨.absent, .val "attic_board", "Board", 33, false⟩).1
+  (postPeripheral demoPCfg r ⟨.absent, .absent, "Board", 34, false⟩).1
+
+/-- target: the two unnamed ones deleted, another board added -/
+def demoTarget : List Periph :=
+  let r := (deletePeripheral demoSource "attic_board").1
+  let r := (deletePeripheral r "peripheral_a").1
+  (postPeripheral demoPCfg r ⟨.val "garden", .absent, "Board", 48, false⟩).1
+
+/-- the hypotheses of `peripherals_restore_roundtrip` hold of the demo hubs, and its conclusion computes: the unnamed
+peripherals come back under `attic_board` and `peripheral_a`, although the hash of the GET form of the third entry
+(`name: null`) would be `peripheral_n` -/
+example :
+    ids demoSource = ["fixed", "boiler", "attic_board", "peripheral_a"] ∧
+    ids demoTarget = ["fixed", "boiler", "garden"] ∧
+    (ids demoSource).Nodup ∧ StaticsFirst demoSource ∧
+    demoTarget.filter (·.static) = demoSource.filter (·.static) ∧
+    (putPeripherals demoPCfg demoTarget (getPeripherals demoSource)).2 = .ok ∧
+    getPeripherals (putPeripherals demoPCfg demoTarget (getPeripherals demoSource)).1 = getPeripherals demoSource ∧
+    withPorts (putPeripherals demoPCfg demoTarget (getPeripherals demoSource)).1
+      = ["fixed", "boiler", "attic_board", "peripheral_a"] ∧
+    (getPeripherals demoSource).map demoPCfg.auto = ["peripheral_a", "peripheral_a", "peripheral_n", "peripheral_n"] := by
+  decide
+
+/-- a refused document (third entry: unknown driver; and: an id used twice): the call ends at that entry, `boiler` is
+registered without ports, the target's `garden` is gone, the static peripheral is untouched -/
+example :
+    let bad := (getPeripherals demoSource).map (fun e => if e.id = .val "attic_board" then { e with driver := "Nope" } else e)
+    let dup := (getPeripherals demoSource).map (fun e => if e.id = .val "peripheral_a" then { e with id := .val "boiler" } else e)
+    (putPeripherals demoPCfg demoTarget bad).2 = .raised 2 .noSuchDriver ∧
+    ids (putPeripherals demoPCfg demoTarget bad).1 = ["fixed", "boiler"] ∧
+    withPorts (putPeripherals demoPCfg demoTarget bad).1 = ["fixed"] ∧
+    (putPeripherals demoPCfg demoTarget dup).2 = .raised 3 .duplicate ∧
+    ids (putPeripherals demoPCfg demoTarget dup).1 = ["fixed", "boiler", "attic_board"] := by
+  decide
+
+end Peripherals
+
+/-! ### what is still missing
+
+The frontend's backup restores PUT /peripherals before PUT /ports; the ports of a restored peripheral are re-created from
+its driver definition and then receive their attributes through PUT /ports as non-virtual ports (`restore_roundtrip` with
+`TargetOK`: the port exists on the target with the same definition — which is what `peripherals_restore_roundtrip`
+provides: same peripherals, ports initialised). That link is NOT a theorem: `Model.Backup` and `Model.Peripherals` are two
+models, the creation of a port by `init_ports` is only the flag `Periph.ports`. Over an abstract joint API the full clause
+is the following; its FIRST conjunct is `peripherals_restore_roundtrip` for `Model.Peripherals`, its second conjunct is
+checked on the real hub by the harness only (GET /ports after PUT /peripherals + PUT /ports == GET /ports of the source,
+peripheral ports with attributes included): -/
 
 /-- NOT PROVED, NOT INSTANTIATED — names the clause that is missing from the statements above. `Hub`: hub states;
 `getPeripherals` / `putPeripherals`: GET and PUT /peripherals; `getPorts`: GET /ports. A full-strength round trip would
